@@ -7,6 +7,9 @@
  */
 
 #include "unicode.h"
+#ifdef UNCRUSTIFY_VERIF
+#include "verif_hooks.h"
+#endif
 
 
 using namespace std;
@@ -544,6 +547,10 @@ void write_char(int ch)
 {
    if (ch >= 0)
    {
+#ifdef UNCRUSTIFY_VERIF
+      verif::rec_char(ch);
+#endif
+
       switch (cpd.enc)
       {
       case char_encoding_e::e_BYTE:
